@@ -4,8 +4,8 @@
    [Panic k] is any abort of the Rust code (overflow check, out-of-bounds
    index, unwrap); error 99 (L_FUEL / E_FUEL) is "the model's fuel ran out",
    i.e. an unbounded loop. *)
-From Erbium Require Import Lib.Base Model.DhcpCodec Model.DhcpOptVal Model.Lldp
-  Proofs.Total Proofs.DhcpOptVal Proofs.Lldp Proofs.Folds Proofs.LldpWf.
+From Erbium Require Import Lib.Base Model.DhcpCodec Model.DhcpOptVal Model.Lldp Model.C05LOrig
+  Proofs.Total Proofs.DhcpOptVal Proofs.Lldp Proofs.Folds Proofs.LldpWf Proofs.DhcpWf Proofs.C05LOrig.
 
 (* ---- LLDP ---------------------------------------------------------------- *)
 (* whatever octets arrive on the raw socket, handling the frame (Ethernet-header
@@ -147,3 +147,59 @@ Example C05_wf_tlvs_satisfiable :
   wf_tlvs [TChassis 4 [0; 25; 47; 167; 178; 141]; TPort 1 [85; 112]; TTtl 120; TStr 5 [83; 50];
            TCap 20 4; TOrg [0; 18; 15] 1 [3; 192]; TUnknown 85 [66]] = true.
 Proof. reflexivity. Qed.
+
+(* a well-formed DHCP message, as encoded on the wire, passes parse, log_options and
+   to_array with Ok (uses the C12 round trip): the totality theorems are not
+   vacuous about valid requests *)
+Theorem C05_dhcp_wf_message_passes : forall m : dhcp, wf_dhcp m = true ->
+  exists n f, dhcp_recv_path (encode m) =
+              Ok (n, f, if 6 <=? d_hlen m then Some (takeN 6 (d_chaddr m)) else None).
+Proof. exact wf_message_passes. Qed.
+Check C05_dhcp_wf_message_passes : forall m : dhcp, wf_dhcp m = true ->
+  exists n f, dhcp_recv_path (encode m) =
+              Ok (n, f, if 6 <=? d_hlen m then Some (takeN 6 (d_chaddr m)) else None).
+Print Assumptions C05_dhcp_wf_message_passes.
+Example C05_wf_dhcp_satisfiable :
+  wf_dhcp {| d_op := 1; d_htype := 1; d_hlen := 6; d_hops := 0; d_xid := 7; d_secs := 0; d_flags := 32768;
+             d_ciaddr := 0; d_yiaddr := 0; d_siaddr := 0; d_giaddr := 0; d_chaddr := [2; 0; 0; 0; 0; 1];
+             d_sname := []; d_file := []; d_options := [(53, [1]); (121, [24; 192; 0; 2; 0; 192; 0; 2; 1])] |} = true.
+Proof. reflexivity. Qed.
+
+(* ---- the defects F13-F16, on the fragments as they were before the repairs
+   (Model/C05LOrig.v); the witnesses are the inputs in corpus/C05L/ ------------- *)
+Theorem C05_to_array_orig_refuted : exists (mac : list N) (k : panic_kind), to_array_orig mac = Panic k.
+Proof. exact to_array_orig_refuted. Qed.
+Check C05_to_array_orig_refuted : exists (mac : list N) (k : panic_kind), to_array_orig mac = Panic k.
+Print Assumptions C05_to_array_orig_refuted.
+
+Theorem C05_subnet_new_orig_refuted : exists (addr plen : N) (k : panic_kind), subnet_new_orig addr plen = Panic k.
+Proof. exact subnet_new_orig_refuted. Qed.
+Check C05_subnet_new_orig_refuted : exists (addr plen : N) (k : panic_kind), subnet_new_orig addr plen = Panic k.
+Print Assumptions C05_subnet_new_orig_refuted.
+
+Theorem C05_frame_payload_orig_refuted : exists (frame : list N) (k : panic_kind), frame_payload_orig frame = Panic k.
+Proof. exact frame_payload_orig_refuted. Qed.
+Check C05_frame_payload_orig_refuted : exists (frame : list N) (k : panic_kind), frame_payload_orig frame = Panic k.
+Print Assumptions C05_frame_payload_orig_refuted.
+
+Theorem C05_mgmt_from_wire_orig_refuted : exists (p : list N) (k : panic_kind), mgmt_from_wire_orig p = Panic k.
+Proof. exact mgmt_from_wire_orig_refuted. Qed.
+Check C05_mgmt_from_wire_orig_refuted : exists (p : list N) (k : panic_kind), mgmt_from_wire_orig p = Panic k.
+Print Assumptions C05_mgmt_from_wire_orig_refuted.
+
+(* the repairs change nothing where the old code did not panic (or, for the
+   subnet, where the prefix length is a prefix length) *)
+Theorem C05_repairs_conservative :
+  (forall mac r, to_array_orig mac = Ok r -> to_array mac = Ok r) /\
+  (forall f p, frame_payload_orig f = Ok p -> frame_payload f = Some p) /\
+  (forall p, (forall k, mgmt_from_wire_orig p <> Panic k) -> mgmt_from_wire p = mgmt_from_wire_orig p) /\
+  (forall addr plen, plen <= 32 -> subnet_new addr plen = subnet_new_orig addr plen).
+Proof.
+  exact (conj to_array_conservative (conj frame_payload_conservative (conj mgmt_conservative subnet_new_conservative))).
+Qed.
+Check C05_repairs_conservative :
+  (forall mac r, to_array_orig mac = Ok r -> to_array mac = Ok r) /\
+  (forall f p, frame_payload_orig f = Ok p -> frame_payload f = Some p) /\
+  (forall p, (forall k, mgmt_from_wire_orig p <> Panic k) -> mgmt_from_wire p = mgmt_from_wire_orig p) /\
+  (forall addr plen, plen <= 32 -> subnet_new addr plen = subnet_new_orig addr plen).
+Print Assumptions C05_repairs_conservative.
